@@ -60,10 +60,15 @@ pub(crate) fn scheme_named(fields: &[(&str, Type)]) -> Scheme {
 /// `Err(UnknownFieldError)`.  Implemented as a linear search over `fields`.
 /// What is thereby NOT verified: that the `items` index agrees with `fields`
 /// (claimed by no C08 obligation; listed under `unverified`).
-pub(crate) fn get_field__contract<'s>(
-    this: &'s Scheme,
-    name: &str,
-) -> Result<FieldRef<'s>, UnknownFieldError> {
+/// (Written as a method of the same `impl<'s> Scheme` shape: Kani requires the stub to have the
+/// generic parameters of the original.)
+impl<'s> Scheme {
+    pub(crate) fn get_field__contract(&'s self, name: &str) -> Result<FieldRef<'s>, UnknownFieldError> {
+        get_field_linear(self, name)
+    }
+}
+
+fn get_field_linear<'s>(this: &'s Scheme, name: &str) -> Result<FieldRef<'s>, UnknownFieldError> {
     let mut i = 0;
     while i < this.inner.fields.len() {
         if &*this.inner.fields[i].name == name {
